@@ -15,6 +15,28 @@ ASSUMPTIONS = _vfamily.BASE_ASSUMPTIONS + [
     "(documented cross-field semantics); root-relative dependencies are checked by a directed family with a known answer"]
 
 
+def group_errors(errs):
+    out = []
+    for e in errs:
+        if e["code"] in (0x81, 0x82, 0x83, 0x84, 0x8f):
+            out.append(e)
+        else:
+            out.extend(group_errors(e["ch"]))
+    return out
+
+
+def model_compare(c, which):
+    from common import canon_errors
+    r, m = c["real"], c[which]
+    if r["r"] != "ok" or m["r"] != "ok":
+        return None
+    kw = dict(with_info=False, with_cv=False, with_sp=False)
+    a, b = canon_errors(group_errors(r["errors"]), **kw), canon_errors(group_errors(m["errors"]), **kw)
+    if a != b:
+        return "errors beneath container fields differ: only real %r; only model %r" % (sorted(set(a) - set(b))[:1], sorted(set(b) - set(a))[:1])
+    return None
+
+
 def oracle(c, v):
     return oracles.c10_oracle(c["schema"], c["config"], c["document"], c["update"], v._errors)
 
@@ -37,8 +59,10 @@ def extra(ctx, res):
 
 
 def run(ctx):
-    return _vfamily.run_family(ctx, oracle, lambda d: "standalone:" + d.split("(")[1][:4] if "(" in d else "standalone", None,
-                               nontrivial=nested, extra=extra, genkws=({}, {"max_depth": 4}, {"of_rules": False}),
+    return _vfamily.run_family(ctx, oracle, lambda d: "standalone:" + d.split("(")[1][:4] if "(" in d else "standalone", model_compare,
+                               nontrivial=nested, extra=extra, n_quick=4000,
+                               genkws=({"nested_bias": True, "p_update": 0.5, "deps": False}, {"max_depth": 4, "nested_bias": True},
+                                       {"of_rules": False, "nested_bias": True, "p_update": 0.5}),
                                rule="generated schemas with containers nested to depth 4, all options at the root and per-field overrides; "
                                     "oracle: every sub-document under schema(dict/list)/items/valuesrules/keysrules re-validated by a fresh validator "
                                     "of the same configuration (overrides applied) and compared with the child errors after stripping the prefix; "
